@@ -10,7 +10,7 @@ import sys
 from pathlib import Path
 
 ROOT = Path(__file__).resolve().parent.parent
-SCR = "/var/tmp/reseed_apply"
+SCR = f"/var/tmp/reseed_apply_{os.getpid()}"  # one scratch checkout per process: several runs may go on at once
 
 
 def sh(cmd, **kw):
@@ -52,6 +52,15 @@ def main():
                 m = re.search(r"replay=(\S+)", l)
                 if m and Path(m.group(1)).exists():
                     clause = (json.loads(Path(m.group(1)).read_text()).get("violated_clause") or "")[:120]
+        if verdict == "missed" and (d / "demo.py").exists():
+            # does the stored change still break the property on today's HEAD?  (a later fix: commit may have made it harmless)
+            sh(["git", "-C", "/repo", "worktree", "remove", "--force", SCR])
+            sh(["git", "-C", "/repo", "worktree", "prune"])
+            sh(["git", "-C", "/repo", "worktree", "add", "--detach", SCR, "HEAD"])
+            sh(["git", "-C", SCR, "apply", str(d / "patch.diff")])
+            rc_demo, _ = sh(["/venv/bin/python", str(d / "demo.py")], cwd=SCR, env=dict(os.environ, PYTHONPATH=SCR), timeout=900)
+            if rc_demo == 0:
+                verdict, clause = "harmless-on-HEAD", "the change's own demonstration exits 0 on HEAD + patch (a later fix: commit made it harmless)"
         rows.append((d.name, verdict, clause))
         print(d.name, verdict, clause, flush=True)
         if not only:
